@@ -33,7 +33,7 @@ claimed = {
  'C20': "closed-world genesis round trips (real ExportGenesis + InitGenesis into a second empty store) of collector, locker, auctionsV2, liquidationsV2, x/liquidation, x/auction, the external reward programs of rewards and the per-app id counters of liquidity: records carried over, id counters carried over or at least not colliding with an existing id. Not covered: the other modules and the tables DESIGN.md 0.4 lists as not exported, continuation workloads",
  'C17': "one step of the price ring from any state satisfying the ring invariant, window sizes 1..6 (12 thorough): no panic, invariant, exact mean, activation, consumers fail when inactive",
  'C18': "lend reward / borrow interest / stable interest: non-negative, zero over zero time, monotone relative to a grid (sandwich) in time, principal and rate",
- 'C19': "per-epoch split (allocations sum to the deposit, differ by at most one unit, epochs 1..8, 16 thorough); one epoch trigger of an external-reward gauge from any consistent gauge state (asks for exactly this epoch's allocation, only while active / started / epochs left, count and cumulative amount move with what was distributed); one epoch's distribution never reports or pays more than it was given; a master-pool farmer's child-pool value is the sum over his child pools. Not covered: the float share arithmetic, swap-fee gauges, external reward programs, custody of the rewards account across modules",
+ 'C19': "per-epoch split (allocations sum to the deposit, differ by at most one unit, epochs 1..8, 16 thorough); one epoch trigger of an external-reward gauge from any consistent gauge state (asks for exactly this epoch's allocation, only while active / started / epochs left, count and cumulative amount move with what was distributed); one epoch's distribution never reports or pays more than it was given; a master-pool farmer's child-pool value is the sum over his child pools; one daily epoch of an external vault reward program pays at most the undistributed remainder divided by the days left. Not covered: the float share arithmetic, swap-fee gauges, external reward programs, custody of the rewards account across modules",
 }
 checks = []
 for p in props:
